@@ -5,6 +5,8 @@ From Coq Require Import List NArith Bool Arith Sorted.
 From Coq Require Import Strings.Byte.
 Require Import BS.Bytes BS.Common BS.Api BS.Layout BS.Format BS.FormatFacts BS.Spec BS.SpecStep.
 Require Import BS.FS BS.FSFacts BS.Meta BS.MetaFacts BS.Header BS.Reader BS.ReaderFacts BS.Index BS.Data BS.DataFacts BS.Seek BS.Series BS.SeriesFacts BS.HeaderFacts BS.OpenFacts BS.World BS.WorldFacts BS.HistoryFacts.
+Require Import BS.MetaGenFacts.
+Require BSgen.MetaLayout.
 Import ListNotations.
 
 (* (F) codec core, every payload size, every u64 timestamp, every payload byte pattern, every length *)
@@ -101,3 +103,17 @@ Theorem C01_every_history : forall p name uhdr,
        read_all (snd st') Unb Unb (fst st') = (fst st', Ok l) \/ (l = [] /\ read_all (snd st') Unb Unb (fst st') = (fst st', Err ERange)).
 Proof. exact history_full_read. Qed.
 Print Assumptions C01_every_history.
+
+(* Tie 1 for the layouts: gen/MetaLayout.v is translated on every run from meta::write / meta::read in /repo/src
+   (tools/translate_meta.py); what the source writes for a full timestamp is the documented section, and what it reads back
+   from lines of the right size is the documented timestamp - re-checked against the current source text on every run *)
+Theorem C01_source_layouts_are_documented : forall p t,
+  BSgen.MetaLayout.gen_write p (le_enc 8 t) = enc_section p t
+  /\ (forall a b got, length a = p + 2 -> length b = p + 2 -> Forall (fun s => length s = p + 2) got -> length got = Meta.ncont p ->
+       le_dec (BSgen.MetaLayout.gen_read_bytes p a b got) = Layout.read_ts p a b got)
+  /\ BSgen.MetaLayout.gen_consumed p = seq 0 (Meta.ncont p) /\ BSgen.MetaLayout.gen_write_lines p = Layout.K p.
+Proof.
+  intros p t. split; [exact (source_write_is_documented p t)|]. split; [exact (source_read_is_documented p)|].
+  split; [exact (gen_consumed_is_model p)|exact (gen_write_lines_is_K p)].
+Qed.
+Print Assumptions C01_source_layouts_are_documented.
